@@ -18,7 +18,7 @@ fi
 rc=0
 while [ $# -ge 2 ]; do
   echo "== $1 $2 on mutant $name"
-  SV_REPO=$wt SV_TARGET=$tg /verif/check $1 $2 2>&1 | grep -E "^(VIOLATION|KNOWN|HARNESS|$1 )" | cut -c1-220 | head -8
+  SV_REPO=$wt SV_TARGET=$tg /verif/check $1 $2 2>&1 | grep -E "^(VIOLATION|HARNESS|$1 )" | cut -c1-220 | tail -6
   shift 2
 done
 git -C /repo worktree remove --force $wt; rm -rf $wt $tg
